@@ -145,7 +145,21 @@ MCInit ==
     /\ ScenOK(b, an, skip, d) /\ InPart(skip, func)
     /\ \/ \E x \in OvSets : InitWith(b, an, skip, func, d, TRUE, SrcsOf(x[1], x[2], x[3]))
        \/ InitWith(b, an, skip, func, d, FALSE, <<>>)
-MCNext == PNext /\ UNCHANGED <<pages, win>>
+\* one named action per pipeline step (per-action coverage)
+M_PParse == PParse /\ UNCHANGED <<pages, win>>
+M_PDefaults == PDefaults /\ UNCHANGED <<pages, win>>
+M_PEnter == PEnter /\ UNCHANGED <<pages, win>>
+M_ProbeStep == ProbeStep /\ UNCHANGED <<pages, win>>
+M_ABackup == ABackup /\ UNCHANGED <<pages, win>>
+M_AWrite == AWrite /\ UNCHANGED <<pages, win>>
+M_ALateBackup == ALateBackup /\ UNCHANGED <<pages, win>>
+M_AAnalyze == AAnalyze /\ UNCHANGED <<pages, win>>
+M_BAnalyze == BAnalyze /\ UNCHANGED <<pages, win>>
+M_BBackup == BBackup /\ UNCHANGED <<pages, win>>
+M_BWrite == BWrite /\ UNCHANGED <<pages, win>>
+M_CAnalyze == CAnalyze /\ UNCHANGED <<pages, win>>
+M_FinalCommit == FinalCommit /\ UNCHANGED <<pages, win>>
+MCNext == M_PParse \/ M_PDefaults \/ M_PEnter \/ M_ProbeStep \/ M_ABackup \/ M_AWrite \/ M_ALateBackup \/ M_AAnalyze \/ M_BAnalyze \/ M_BBackup \/ M_BWrite \/ M_CAnalyze \/ M_FinalCommit
 mcvars == <<pvars, pages, win>>
 MCSpec == MCInit /\ [][MCNext]_mcvars /\ WF_mcvars(MCNext)
 Terminates == <>PDone
@@ -166,14 +180,14 @@ TitlesGood ==
   { C0(<<"a">>), C0(<<"a", "b">>), C0(<<"a", "b", "c">>), C0(<<"a", "/", "b">>), C0(<<"a", ":", "b">>),
     C0(<<"a", "*">>), C0(<<"?">>), C0(<<"\"", "a">>), C0(<<"<", ">">>), C0(<<"a", "|", "b">>),
     C0(<<"a", "/", "/", "b">>), C0(<<"a", ".", ".", "b">>), C0(<<"a", ".", "b">>), C0(<<"a", " ", "b">>),
-    C0(<<"/">>), C0(<<"a", "b", "/", "c">>),
+    C0(<<"a", "b", "/", "c">>), C0(<<"a", "b", "/", "/", "c">>), C0(<<"a", "/", "/">>),
     CT(<<"a">>), CT(<<"a", "/", "b">>), CT(<<"a", ":", "b">>), CT(<<"a", "/", "/", "b">>), CT(<<".", ".", "a">>),
     CT(<<"*">>), CM(<<"a">>), CM(<<"a", "/", "b">>), CM(<<"a", "b">>),
     Red0(<<"r">>, <<"a">>) }
 \* saved under a name starting with "." (never read back)
-TitlesDot == { C0(<<".", "a">>), CT(<<".", "a">>), C0(<<"a", "/", ".", "b">>), C0(<<"a", "/">>), C0(<<".">>) }
+TitlesDot == { C0(<<"/">>), C0(<<".", "a">>), CT(<<".", "a">>), C0(<<"a", "/", ".", "b">>), C0(<<"a", "/">>), C0(<<".">>) }
 \* colliding with a good title
-TitlesClash == { C0(<<"/", "a">>), C0(<<"a", "/", ".", "/", "b">>), C0(<<"a", "/", "/">>), C0(<<"a", "b", "/", "/", "c">>) }
+TitlesClash == { C0(<<"/", "a">>), C0(<<"a", "/", ".", "/", "b">>) }
 TitlesAll == TitlesGood \cup TitlesDot \cup TitlesClash
 WinNo == {FALSE}
 WinBoth == BOOLEAN
